@@ -678,9 +678,9 @@ End Hashable.
 
 (* ------------------------------------------------------------ refutations for the current variants *)
 Section Refuted.
-Notation eqC := (@eqt R Num_R current_variants).
+Notation eqC := (@eqt R Num_R old_variants).
 Notation keqR := (@key_eqv R Num_R).
-Notation hkC := (@hash_key R Num_R current_variants).
+Notation hkC := (@hash_key R Num_R old_variants).
 
 Definition I01 : ext R * ext R := (Fin 0%R, Fin 1%R).
 Definition Ind (n : nat) : obj R := OIntv (repeat I01 n).
@@ -710,8 +710,8 @@ Qed.
 (* array weightings of the two class families sharing one array object *)
 Lemma arrw_equal : @w_eqb R Num_R (WArray KNpy 1 (EFin 2%R)) (WArray KPs 1 (EFin 2%R)) = true.
 Proof. apply w_eqb_strip. reflexivity. Qed.
-Lemma arrw_keys : keqR (w_key current_variants (WArray KNpy 1 (EFin 2%R)))
-                       (w_key current_variants (WArray KPs 1 (EFin 2%R))) = false.
+Lemma arrw_keys : keqR (w_key old_variants (WArray KNpy 1 (EFin 2%R)))
+                       (w_key old_variants (WArray KPs 1 (EFin 2%R))) = false.
 Proof. reflexivity. Qed.
 End Refuted.
 
@@ -735,18 +735,18 @@ Lemma contains_sym v : v_intv_guard v = true ->
 Proof. intros Hg S x. unfold contains. apply eqt_sym, Hg. Qed.
 
 Lemma hash_refuted :
-  exists a b : obj R, @eqt R _ current_variants a b = TT /\
-    @key_eqv R _ (hash_key current_variants a) (hash_key current_variants b) = false.
+  exists a b : obj R, @eqt R _ old_variants a b = TT /\
+    @key_eqv R _ (hash_key old_variants a) (hash_key old_variants b) = false.
 Proof. exists (Ind 1), (Ind 3). split; [exact intv_1_3_equal | exact intv_1_3_keys]. Qed.
 Lemma trans_refuted :
-  exists a b c : obj R, @eqt R _ current_variants a b = TT /\ @eqt R _ current_variants b c = TT /\
-    @eqt R _ current_variants a c = EE.
+  exists a b c : obj R, @eqt R _ old_variants a b = TT /\ @eqt R _ old_variants b c = TT /\
+    @eqt R _ old_variants a c = EE.
 Proof. exists (Ind 2), (Ind 1), (Ind 3). repeat split; [exact intv_2_1_equal | exact intv_1_3_equal]. Qed.
-Lemma refl_refuted : exists a : obj R, @eqt R _ current_variants a a = EE.
+Lemma refl_refuted : exists a : obj R, @eqt R _ old_variants a a = EE.
 Proof. exists (OUnion [Ind 2; Ind 3]). exact union_self_raises. Qed.
 Lemma w_hash_refuted :
   exists a b : weighting R, w_eqb a b = true /\
-    @key_eqv R _ (w_key current_variants a) (w_key current_variants b) = false.
+    @key_eqv R _ (w_key old_variants a) (w_key old_variants b) = false.
 Proof. exists (WArray KNpy 1 (EFin 2%R)), (WArray KPs 1 (EFin 2%R)). split; [exact arrw_equal | exact arrw_keys]. Qed.
 
 (* ------------------------------------------------------------ what holds of the CURRENT code:
@@ -830,13 +830,13 @@ Qed.
    and an equivalence as well *)
 Corollary current_eq_partial (a b c : obj R) :
   ndims_ok a = true -> ndims_ok b = true -> ndims_ok c = true ->
-  @eqt R _ current_variants a b <> EE /\
-  @eqt R _ current_variants a a = TT /\
-  @eqt R _ current_variants a b = @eqt R _ current_variants b a /\
-  (@eqt R _ current_variants a b = TT -> @eqt R _ current_variants b c = TT -> @eqt R _ current_variants a c = TT).
+  @eqt R _ old_variants a b <> EE /\
+  @eqt R _ old_variants a a = TT /\
+  @eqt R _ old_variants a b = @eqt R _ old_variants b a /\
+  (@eqt R _ old_variants a b = TT -> @eqt R _ old_variants b c = TT -> @eqt R _ old_variants a c = TT).
 Proof.
   intros Ha Hb Hc.
-  rewrite !(eqt_variant_indep current_variants repaired_variants) by assumption.
+  rewrite !(eqt_variant_indep old_variants repaired_variants) by assumption.
   repeat split.
   - apply eqt_noraise; reflexivity.
   - apply eqt_refl; reflexivity.
@@ -948,7 +948,7 @@ Definition no_ps_array (w : weighting R) : bool :=
   match w with WArray KPs _ _ => false | _ => true end.
 
 Lemma w_key_current_ok (a b : weighting R) : no_ps_array a = true -> no_ps_array b = true ->
-  w_eqb a b = true -> w_key current_variants a = w_key current_variants b.
+  w_eqb a b = true -> w_key old_variants a = w_key old_variants b.
 Proof.
   intros Ha Hb E. unfold w_eqb in E. apply andb_true_iff in E as [Ee E]. apply expo_eqb_eq in Ee.
   destruct a as [k c e|k i e|k f|k f|k f|i e], b as [k' c' e'|k' i' e'|k' f'|k' f'|k' f'|i' e'];
@@ -963,7 +963,7 @@ Qed.
 
 Definition guard_only : variants := {| v_intv_guard := true; v_arrw_hash_type := true |}.
 
-Lemma hash_key_guard_indep : forall a : obj R, @hash_key R _ current_variants a = @hash_key R _ guard_only a.
+Lemma hash_key_guard_indep : forall a : obj R, @hash_key R _ old_variants a = @hash_key R _ guard_only a.
 Proof. intro a. reflexivity. Qed.
 
 (* CURRENT code, partial: one ndim everywhere and no product-space array weighting:
@@ -971,10 +971,10 @@ Proof. intro a. reflexivity. Qed.
 Theorem current_hash_partial n (a b : obj R) :
   ndims_ok n a = true -> ndims_ok n b = true ->
   weights_ok no_ps_array a = true -> weights_ok no_ps_array b = true ->
-  @eqt R _ current_variants a b = TT ->
-  @key_eqv R _ (hash_key current_variants a) (hash_key current_variants b) = true.
+  @eqt R _ old_variants a b = TT ->
+  @key_eqv R _ (hash_key old_variants a) (hash_key old_variants b) = true.
 Proof.
-  intros Na Nb Wa Wb E. rewrite (eqt_variant_indep n current_variants guard_only) in E by assumption.
+  intros Na Nb Wa Wb E. rewrite (eqt_variant_indep n old_variants guard_only) in E by assumption.
   rewrite !hash_key_guard_indep.
   apply (eqt_hash_key_gen guard_only eq_refl no_ps_array w_key_current_ok); assumption.
 Qed.
